@@ -115,6 +115,9 @@ func normErr(err error) string {
 
 // valueArg builds the argument of an encoding step.
 func valueArg(st *plan.Step) interface{} {
+	if !verifsim.Active() {
+		rawGuards = rawGuards[:0] // only the buffers of this call's value are watched
+	}
 	ti := lookupType(st.T)
 	if hasOpt(st, "big") && st.N > 0 {
 		return bigValue(ti, st.V, st.N)
@@ -389,6 +392,9 @@ func (ss *sessState) doStep(i int, st *plan.Step) (obs string) {
 			b, err = gojson.MarshalContext(ctx, v, opts...)
 		}
 		runtime.KeepAlive(v)
+		if msg := checkRawGuards(); msg != "" && !verifsim.Active() {
+			ss.viols = append(ss.viols, plan.Violation{Oracle: "aliasing", Where: fmt.Sprintf("session %s step %d (%s)", ss.s.ID, i, st.Op), Sig: "aliasing|value_modified", Detail: msg})
+		}
 		o := fmt.Sprintf("%s err=%q out=%s", st.Op, normErr(err), canonOut(st, b))
 		if dbg != nil {
 			o += " dbg=" + debugSummary(dbg.Buf)
@@ -457,11 +463,16 @@ func (ss *sessState) doStep(i int, st *plan.Step) (obs string) {
 		p := reflect.New(ti.Type())
 		if hasOpt(st, "prefill") {
 			p.Elem().Set(MakeValue(ti, st.V))
+			if !verifsim.Active() {
+				rawGuards = rawGuards[:0] // a destination may of course be overwritten
+			}
 		}
 		if hasOpt(st, "prefill_ptr") && ti.Type().Kind() == reflect.Interface {
 			// an interface{} destination that already holds a non-nil pointer:
 			// the document is decoded into what it points to
-			pre := []interface{}{&Small{A: 1}, new(int), &Leaf{L1: 2}, &[]int{1}, &map[string]int{"k": 1}, new(string), &Inner{X: 3}, new(float64), &Tagged{Name: "t"}, &Wide{A: 4}}
+			pre := []interface{}{&Small{A: 1}, new(int), &Leaf{L1: 2}, &[]int{1}, &map[string]int{"k": 1}, new(string), &Inner{X: 3}, new(float64), &Tagged{Name: "t"}, &Wide{A: 4},
+				// typed nil pointers
+				(*Small)(nil), (*int)(nil), (*Leaf)(nil), (*[]int)(nil), (*map[string]int)(nil), (*string)(nil), (*Inner)(nil), (*float64)(nil), (*Tagged)(nil), (*Wide)(nil)}
 			p.Elem().Set(reflect.ValueOf(pre[int(uint64(st.V)%uint64(len(pre)))]))
 		}
 		var err error
